@@ -22,7 +22,8 @@ package peer
 
 //@ func (*Signature).Validate
 //@   nilable-receiver
-//@   ensures ret == nil ==> s != nil && (s.HashType == 0 || knownHash(s.HashType)) && len(s.SigData) > 0
+// (taken from the property: unknown hash types - 0 included - are rejected)
+//@   ensures ret == nil ==> s != nil && knownHash(s.HashType) && len(s.SigData) > 0
 
 // ok is exactly the Ed25519 verdict on (key, signBody(context, type, digest(type, data)), signature);
 // objects with unknown/missing hash type or empty signature bytes are rejected with an error.
